@@ -731,13 +731,24 @@ func checkDescriptionHelpers(c *Ctx, r *Report, pa *provAnalysis) {
 				tests, bad := 0, 0
 				forEachInstr(f, func(in ssa.Instruction) {
 					bo, ok := in.(*ssa.BinOp)
-					if !ok || (bo.Op != token.EQL && bo.Op != token.NEQ) {
+					if !ok {
 						return
 					}
 					var x ssa.Value
 					if k, ok := bo.Y.(*ssa.Const); ok && k.Value != nil {
-						if (isConstString(bo.Y) && constString(k) == "") || (k.Value.Kind().String() == "Int" && k.Int64() == 0) {
-							x = bo.X
+						switch bo.Op {
+						case token.EQL, token.NEQ:
+							if (isConstString(bo.Y) && constString(k) == "") || (k.Value.Kind().String() == "Int" && k.Int64() == 0) {
+								x = bo.X
+							}
+						case token.GTR, token.LEQ: // len(l) > 0, len(l) <= 0
+							if k.Value.Kind().String() == "Int" && k.Int64() == 0 {
+								x = bo.X
+							}
+						case token.GEQ, token.LSS: // len(l) >= 1, len(l) < 1
+							if k.Value.Kind().String() == "Int" && k.Int64() == 1 {
+								x = bo.X
+							}
 						}
 					}
 					if x == nil {
